@@ -546,6 +546,51 @@ class Fn:
                         bad.append(h)
         return bad
 
+    def flow(self, init, on_event=None, on_edge=None, limit=20000):
+        """Forward may-dataflow over small hashable states. on_event(state, pos, ev) -> state (or None to stop the path);
+        on_edge(state, bid, i, term_literal, polarity_on_this_edge) -> state (or None when the edge is infeasible).
+        Returns {pos: set(states arriving just before the event)} plus key 'exit' -> states at exit."""
+        seen = set()
+        at = {}
+        work = [(self.entry, 0, init)]
+        n = 0
+        while work:
+            bid, idx, st = work.pop()
+            if (bid, idx, st) in seen:
+                continue
+            seen.add((bid, idx, st))
+            n += 1
+            if n > limit:
+                raise RuntimeError("flow: state limit in %s" % self.f.get("key"))
+            b = self.blocks.get(bid)
+            if b is None:
+                continue
+            evs = b["ev"]
+            stop = False
+            while idx < len(evs):
+                at.setdefault((bid, idx), set()).add(st)
+                if on_event is not None:
+                    st = on_event(st, (bid, idx), evs[idx])
+                    if st is None:
+                        stop = True
+                        break
+                idx += 1
+            if stop:
+                continue
+            if bid == self.exit:
+                at.setdefault("exit", set()).add(st)
+                continue
+            br = self.branch(bid)
+            for i, s2 in self.succs(bid):
+                st2 = st
+                if on_edge is not None and br is not None and len(self.succs(bid)) >= 2:
+                    t, pol = br
+                    st2 = on_edge(st, bid, i, t, pol if i == 0 else (not pol))
+                    if st2 is None:
+                        continue
+                work.append((s2, 0, st2))
+        return at
+
     def count_paths_ge2(self):
         """non-trivial: at least one two-way branch among reachable blocks"""
         for bid in self.reachable_blocks():
